@@ -197,7 +197,7 @@ impl Check for C03 {
     }
     fn run(&self, ch: &mut Chooser, tier: Tier) -> RunOutcome {
         let depth = if tier == Tier::Thorough { 400 } else { 80 };
-        let cfg = DriverCfg { wild_timers: true, runtime_changes: true, depth, host_faults: true, recording_filter: false, max_ports: 3 };
+        let cfg = DriverCfg { wild_timers: true, runtime_changes: true, depth, host_faults: true, recording_filter: false, max_ports: 3, shared_segments: false };
         let mut d = Driver::new(ch, cfg);
         d.w.keep_emitted = false;
         // failing clock (contract-honouring: a failed command changes nothing)
